@@ -333,6 +333,18 @@ def allcirc_hyp(ck, c, strips, what):
     return 'allcirc-hyp:ok' if all(h == 'wf=true order=true forks=true reads=true' for h in out) else 'allcirc-hyp:outside'
 
 
+def netspec_hyp(c):
+    """hypotheses of the netlist-level reading (C02.sim8_netlist_all_circuits: forksOKB; oracle_labelling_is_simulation:
+    additionally linesDrivenB) on the real circuit and order; histogram tag only"""
+    from . import circ
+    try:
+        order = ','.join(str(n.index) for n in c.topological_order())
+        out = run_driver([f'net {circ.dump_net(c)}', f'netspeccert {order}'])[1]
+    except Exception as ex:
+        return f'netspec-hyp:not-evaluated({type(ex).__name__})'
+    return 'netspec-hyp:' + ('ok' if out == 'forks=true lines=true' else out.replace(' ', ','))
+
+
 def theorems_of(relpath, namespace):
     """names of all `theorem`s declared in a Props file (comments stripped), qualified by its namespace"""
     src = strip_comments(open(os.path.join(LEAN, relpath)).read())
